@@ -419,9 +419,21 @@ func (c *core) fastForward(block *hg.Block, frame *hg.Frame) error {
 		return err
 	}
 
-	// Update peer-selector and validators
+	// Update peer-selector and validators. The latest validator-set is the most
+	// recent entry of the peer-set history shipped with the Frame, not
+	// frame.Peers: a change accepted less than 6 rounds before frame.Round is
+	// already recorded in frame.PeerSets (at its effective round) but is not in
+	// the set of frame.Round. Starting from frame.Peers would drop that change
+	// when the next one is applied on top of c.validators.
 	c.setPeers(peers.NewPeerSet(frame.Peers))
 	c.validators = peers.NewPeerSet(frame.Peers)
+	latestRound := frame.Round
+	for round, ps := range frame.PeerSets {
+		if round > latestRound {
+			latestRound = round
+			c.validators = peers.NewPeerSet(ps)
+		}
+	}
 
 	return nil
 }
